@@ -27,6 +27,10 @@ def cases(tier: str):
             for r in rets:
                 yield dict(p, ret=r, configs=CONFIGS, flavours=[False, True], explore=True)
         idx += 1
+    for body, ret in wide_programs():
+        for config in ("mc3", "res_rot"):
+            yield dict(name="main", params=[["x", "<nodefault>"]], body=body, ret=ret, subs=[], env=[], configs=[config], flavours=[False, True],
+                       explore=True, wide=True)
     # 3-statement chains
     for p in programs(3, [PARAMS_X] if q else [PARAMS_X, PARAMS_XY], ["+"] if q else OPS_Q, with_subs=not q, chain3_only=True):
         if len(p["body"]) < 3:
@@ -39,12 +43,36 @@ def cases(tier: str):
         idx += 1
 
 
+def _call(fn, args, out, **kw):
+    return {"k": "call", "fn": fn, "args": args, "kwargs": kw.get("kwargs", {}), "flag": kw.get("flag"), "out": out}
+
+
+def wide_programs():
+    """4-6 statement programs with several independent calls and joins: every completion order, tie-break and done batch."""
+    X = ["p", "x"]
+
+    def v(n, *path):
+        return ["v", n, list(path)]
+
+    yield [_call("inc", [X], "a"), _call("add", [X, ["c", 2]], "b"), _call("mkd", [X], "c"), _call("add", [v("a"), v("c", "k")], "d"), _call("inc", [v("b")], "e")], \
+        ["tuple", [v("d"), v("e"), v("c", "l", 1)]]
+    yield [_call("inc", [X], "a"), _call("pair", [X], "b"), _call("k0", [], "c"), _call("add", [v("a")], "d", kwargs={"y": v("c")}),
+           _call("add", [v("b", 0), v("c")], "e"), _call("inc", [v("b", 1)], "f")], ["dict", {"d": v("d"), "e": v("e"), "f": v("f")}]
+    yield [_call("inc", [X], "a"), _call("inc", [X], "b"), _call("inc", [X], "c"), _call("add", [v("a"), v("c")], "d"), _call("ident", [v("b")], "e", flag=v("a"))], \
+        ["list", [v("d"), v("e")]]
+    yield [_call("pair_u", [X], ["a", "a2"]), _call("k0", [], "b"), _call("mkd", [v("b")], "c"), _call("add", [v("a2")], "d", kwargs={"y": v("c", "l", 0)}),
+           {"k": "op", "op": "+", "a": v("a"), "b": v("b"), "out": "e"}], ["tuple", [v("d"), v("e")]]
+
+
 def run_one(acc, c):
     prog = {k: c[k] for k in ("name", "params", "body", "ret", "subs")}
     inputs = inputs_for(c["params"])
     if c.get("few_inputs"):
         inputs = inputs[:2]
     case = {"prog": prog}
+    if c.get("wide"):
+        run_program(acc, case, prog, inputs[:1], c["configs"], c["flavours"], explore_all=True, tie_budget=0, max_execs=20000)
+        return
     run_program(acc, case, prog, inputs, c["configs"], c["flavours"], explore_all=c["explore"] and n_lib_calls(prog) <= 3)
     kinds = {st["k"] + ":" + str(st.get("fn", st.get("op", st.get("dag")))) + ("!" if st.get("flag") else "") for st in prog["body"]}
     if len(prog["body"]) >= 2:
